@@ -38,22 +38,25 @@ fn asked(valid: usize, l: usize) -> usize {
     core::cmp::min(missing, 724 / core::cmp::max(l, 1))
 }
 
-/// One NTS `handle_timer` with the real encoder. The oldest cookie (the one that is sent and that
-/// sizes the placeholders) has length `l` (zero content: content does not influence sizes).
-fn c14_wire_body(l: usize, cap: usize, valid_lo: usize, version_sel: u8) {
+/// One NTS `handle_timer`, every cookie length 0..=1024 and every stash fill. The encoder call is
+/// replaced by the recorder (common.rs): what is checked here is the decision logic of
+/// `handle_timer` (send or reset, how many cookie-sized fields) and, with the per-field sizes
+/// established by `c14_ef_size`, that the request it assembles fits the buffer.
+fn c14_struct_body(version_sel: u8) {
     stubs::symbolic_clock();
     sym_rng();
     let valid: usize = kani::any();
-    kani::assume(valid <= MAX_COOKIES && (valid == 0 || valid >= valid_lo));
+    kani::assume(valid <= MAX_COOKIES);
+    let l: usize = kani::any();
+    kani::assume(l <= 1024);
     let tries_left: u8 = kani::any();
     let desired: i8 = kani::any();
     kani::assume(desired >= 0 && desired <= 17);
     let reach: u8 = kani::any();
     let tries: usize = kani::any();
     kani::assume(tries <= 4);
-    kani::assume(l <= cap);
 
-    let mut oldest = vec![0u8; cap];
+    let mut oldest = vec![0u8; 1024];
     oldest.truncate(l);
     let nts = sh::nts_data_with_stash(stash0(valid, oldest), c2s(), s2c());
     let version = version_from(version_sel, tries_left);
@@ -65,17 +68,24 @@ fn c14_wire_body(l: usize, cap: usize, valid_lo: usize, version_sel: u8) {
     let (acts, n) = collect_actions(src.handle_timer());
 
     let sent = match &acts[0] {
-        Some(NtpSourceAction::Send(p)) => {
+        Some(NtpSourceAction::Send(_)) => {
             assert!(n == 2 && matches!(acts[1], Some(NtpSourceAction::SetTimer(_))), "Send is followed by SetTimer only");
-            assert!(p.len() <= 1024, "request fits the 1024-byte send buffer");
             assert!(valid >= 1 && l <= 724, "a request is only built when a cookie that leaves room exists");
-            let fixed = if v5 { 48 + 36 + 28 + 20 + 40 } else { 48 + 36 + 40 };
-            assert!(p.len() == fixed + asked(valid, l) * ef_wire(l), "datagram size = fixed part + one field per requested cookie");
+            unsafe {
+                assert!(REC_CALLS == 1 && REC_N_COOKIE == 1 && REC_COOKIE_LEN == l && REC_PH_LEN_MISMATCH == 0, "one cookie, placeholders of the same length");
+                assert!(1 + REC_N_PH == asked(valid, l), "requested cookies = min(missing, floor(724 / max(L,1)))");
+                assert!(REC_N_UID == 1 && REC_UID_LEN == 32 && REC_N_OTHER == if v5 { 2 } else { 0 } && REC_N_ENC == 0 && REC_N_UNTRUSTED == 0, "fixed part of the request");
+                assert!(REC_HAS_KEY && REC_DESIRED_SIZE_NONE, "a cipher is supplied; no padding to a desired size");
+                // sizes per field: c14_ef_size (cookie-sized fields), constants for the rest
+                let fixed = if v5 { 48 + 36 + 28 + 20 + 40 } else { 48 + 36 + 40 };
+                assert!(fixed + (1 + REC_N_PH) * ef_wire(l) <= 1024, "the assembled request fits the 1024-byte send buffer");
+            }
             true
         }
         Some(NtpSourceAction::Reset) => {
             assert!(n == 1, "Reset stands alone");
             assert!(valid == 0 || l > 724 || (reach == 0 && tries >= 3), "reset only without cookie, with an oversize cookie, or when unreachable");
+            assert!(unsafe { REC_CALLS == 0 }, "nothing is encoded on reset");
             false
         }
         _ => {
@@ -83,77 +93,31 @@ fn c14_wire_body(l: usize, cap: usize, valid_lo: usize, version_sel: u8) {
             false
         }
     };
-    if cap <= 724 {
-        kani::cover!(sent && valid == 8, "request from a full stash");
-        kani::cover!(sent && valid == valid_lo && l == cap, "request with the most fields of this harness");
-        kani::cover!(!sent && valid == 0, "reset: no cookies");
-    } else {
-        kani::cover!(!sent && valid == 8 && reach != 0, "reset: oversize cookie");
+    kani::cover!(sent && valid == 1 && l == 90, "eight cookie-sized fields of 96 bytes");
+    kani::cover!(sent && l == 724, "largest cookie that is still sent");
+    kani::cover!(sent && l == 0, "empty cookie");
+    kani::cover!(!sent && l == 725 && valid == 8 && reach != 0, "reset: oversize cookie");
+    kani::cover!(!sent && valid == 0, "reset: no cookies");
+    kani::cover!(sent && l == 256 && unsafe { REC_N_PH } == 1, "fit computed without u8 wrap-around");
+}
+
+nharness! {
+    #[kani::unwind(14)]
+    #[kani::stub(ntp_proto::NtpPacket::serialize, crate::common::serialize_recorder)]
+    fn c14_poll_struct_v4() {
+        c14_struct_body(0);
     }
 }
 
 nharness! {
-    #[kani::unwind(8)]
-    fn c14_poll_wire_v4() {
-        let l: usize = kani::any();
-        c14_wire_body(l, 64, 6, 0);
-    }
-}
-
-nharness! {
-    #[kani::unwind(8)]
-    fn c14_poll_wire_v5() {
-        let l: usize = kani::any();
+    #[kani::unwind(14)]
+    #[kani::stub(ntp_proto::NtpPacket::serialize, crate::common::serialize_recorder)]
+    fn c14_poll_struct_v5() {
         let sel: u8 = kani::any();
         kani::assume(sel >= 1 && sel <= 3);
-        c14_wire_body(l, 64, 7, sel);
+        c14_struct_body(sel);
     }
 }
-
-// boundary lengths, concrete (each harness: all stash fills that keep the field count within the
-// unwind bound, all random draws, poll/reach states):
-//   L >= 242: at most 2 cookies fit -> every stash fill 0..=8
-//   L <  242: stash fill 6..=8 (v4) / 7..=8 (v5)
-macro_rules! edge {
-    ($name4:ident, $name5:ident, $l:expr) => {
-        nharness! {
-            #[kani::unwind(8)]
-            fn $name4() {
-                c14_wire_body($l, $l, if $l >= 242 { 1 } else { 6 }, 0);
-            }
-        }
-        nharness! {
-            #[kani::unwind(8)]
-            fn $name5() {
-                c14_wire_body($l, $l, if $l >= 242 { 1 } else { 7 }, 3);
-            }
-        }
-    };
-}
-// u8 wrap of the fit computation (255/256), steps of floor(724/L) (90/91, 103/104, 120/121,
-// 144/145, 181/182, 241/242, 361/362/363), the margin (723/724/725), the buffer (1020/1024)
-edge!(c14_poll_edge_v4_90, c14_poll_edge_v5_90, 90);
-edge!(c14_poll_edge_v4_91, c14_poll_edge_v5_91, 91);
-edge!(c14_poll_edge_v4_103, c14_poll_edge_v5_103, 103);
-edge!(c14_poll_edge_v4_104, c14_poll_edge_v5_104, 104);
-edge!(c14_poll_edge_v4_120, c14_poll_edge_v5_120, 120);
-edge!(c14_poll_edge_v4_121, c14_poll_edge_v5_121, 121);
-edge!(c14_poll_edge_v4_144, c14_poll_edge_v5_144, 144);
-edge!(c14_poll_edge_v4_145, c14_poll_edge_v5_145, 145);
-edge!(c14_poll_edge_v4_181, c14_poll_edge_v5_181, 181);
-edge!(c14_poll_edge_v4_182, c14_poll_edge_v5_182, 182);
-edge!(c14_poll_edge_v4_241, c14_poll_edge_v5_241, 241);
-edge!(c14_poll_edge_v4_242, c14_poll_edge_v5_242, 242);
-edge!(c14_poll_edge_v4_255, c14_poll_edge_v5_255, 255);
-edge!(c14_poll_edge_v4_256, c14_poll_edge_v5_256, 256);
-edge!(c14_poll_edge_v4_361, c14_poll_edge_v5_361, 361);
-edge!(c14_poll_edge_v4_362, c14_poll_edge_v5_362, 362);
-edge!(c14_poll_edge_v4_363, c14_poll_edge_v5_363, 363);
-edge!(c14_poll_edge_v4_723, c14_poll_edge_v5_723, 723);
-edge!(c14_poll_edge_v4_724, c14_poll_edge_v5_724, 724);
-edge!(c14_poll_edge_v4_725, c14_poll_edge_v5_725, 725);
-edge!(c14_poll_edge_v4_1020, c14_poll_edge_v5_1020, 1020);
-edge!(c14_poll_edge_v4_1024, c14_poll_edge_v5_1024, 1024);
 
 // ------------------------------------------------------------------------------------------
 // the per-field encoder, every cookie length and every remaining buffer size
@@ -309,28 +273,3 @@ harness! {
     }
 }
 
-// ---- probes (not registered)
-fn probe_body(valid: usize, l: usize, v5: bool) {
-    sym_rng();
-    let oldest = vec![0u8; l];
-    let stash = stash0(valid, oldest);
-    let nts = sh::nts_data_with_stash(stash, c2s(), s2c());
-    let mut src = new_source(if v5 { ProtocolVersion::V5 } else { ProtocolVersion::V4 }, SourceConfig::default(), poll(6), Some(nts));
-    let (acts, n) = collect_actions(src.handle_timer());
-    match &acts[0] {
-        Some(NtpSourceAction::Send(p)) => assert!(p.len() <= 1024),
-        _ => assert!(false),
-    }
-}
-nharness! {
-    #[kani::unwind(10)]
-    fn probe_u10() { probe_body(4, 4, false); }
-}
-nharness! {
-    #[kani::unwind(8)]
-    fn probe_v4_6_64() { probe_body(6, 64, false); }
-}
-nharness! {
-    #[kani::unwind(8)]
-    fn probe_v5_8_64() { probe_body(8, 64, true); }
-}
